@@ -60,3 +60,12 @@ impl Allocator {
 pub fn verif_vec_eq_slice(a: &Vec<u8>, b: &[u8]) -> (r: bool) ensures r == (a@ == b@) { unimplemented!() }
 #[verifier::external_body]
 pub fn verif_slice_is(a: &[u8], b: [u8; 1]) -> (r: bool) ensures r == (a@.len() == 1 && a@[0] == b[0]) { unimplemented!() }
+// extension of the allocator is transitive (nodes are immutable)
+pub broadcast proof fn lemma_alloc_ext_trans(a: Allocator, b: Allocator, c: Allocator)
+    requires #[trigger] alloc_ext(a, b), #[trigger] alloc_ext(b, c)
+    ensures alloc_ext(a, c)
+{
+    assert forall|n: NodePtr| #[trigger] node_tree(a, n) is Some implies node_tree(c, n) == node_tree(a, n) by {
+        assert(node_tree(b, n) == node_tree(a, n));
+    }
+}
